@@ -123,7 +123,9 @@ class ServerBase(object):
             ctx.out_object = (None,)
 
         elif isinstance(ctx.out_object, Ignored):
-            ctx.out_object = ()
+            # a method that declares several return values: none of them
+            ctx.out_object = (None,) * max(1,
+                                len(ctx.descriptor.out_message._type_info))
 
     def convert_pull_to_push(self, ctx, gen):
         oobj, = ctx.out_object
